@@ -30,6 +30,23 @@ theorem forall_mem_append {α : Type} {P : α → Prop} {s t : List α}
   · exact hs e h
   · exact ht e h
 
+/-- a chunk is checked in four pieces of `n` entries: every `by decide +kernel` is its own kernel run (its own auxiliary
+lemma), which keeps the kernel's caches — ≈ 11 MB per hash — small -/
+theorem all_quarters {α : Type} {p : α → Bool} {l : List α} (n : Nat)
+    (h0 : (l.take n).all p = true) (h1 : ((l.drop n).take n).all p = true)
+    (h2 : ((l.drop (2 * n)).take n).all p = true) (h3 : (l.drop (3 * n)).all p = true) : l.all p = true := by
+  have e : l = l.take n ++ ((l.drop n).take n ++ ((l.drop (2 * n)).take n ++ l.drop (3 * n))) := by
+    have a := (List.take_append_drop n l).symm
+    have b := (List.take_append_drop n (l.drop n)).symm
+    have c := (List.take_append_drop n (l.drop (2 * n))).symm
+    rw [List.drop_drop] at b c
+    rw [show n + n = 2 * n by omega] at b
+    rw [show 2 * n + n = 3 * n by omega] at c
+    rw [← c, ← b]
+    exact a
+  rw [e]
+  simp only [List.all_append, h0, h1, h2, h3, Bool.and_self]
+
 /-! ### `byteSwap` is the little-endian reading of the big-endian bytes -/
 
 theorem length_bytesLE (n v : Nat) : (bytesLE n v).length = n := by
